@@ -230,6 +230,10 @@ def tlc_mc(spec_path, cfg_path, tag, workers=8, timeout=3000, xmx="8g", extra=No
         raise ToolError(f"TLC timed out on {spec_path}")
     finally:
         shutil.rmtree(md, ignore_errors=True)
+        try:
+            md.parent.rmdir()
+        except OSError:
+            pass
     ok = "Model checking completed. No error has been found." in out or (simulate and "Error" not in out)
     m = re.findall(r"(\d+) states generated, (\d+) distinct states found", out)
     cov = {}
